@@ -48,21 +48,64 @@ def _functions(mod):
                     yield n.name + "." + m.name, m
 
 
-def _resolve_local(fn, e):
-    """a local name bound exactly once in fn stands for its value"""
-    if isinstance(e, ast.Name):
-        binds = [n for n in ast.walk(fn) if isinstance(n, ast.Assign)
-                 and any(isinstance(t, ast.Name) and t.id == e.id for t in n.targets)]
-        stores = [n for n in ast.walk(fn) if isinstance(n, ast.Name) and n.id == e.id
-                  and isinstance(n.ctx, ast.Store)]
-        _need(len(binds) == 1 and len(stores) == 1, "index name %s is bound %d times" % (e.id, len(stores)), e)
-        return binds[0].value
+def _single_assignments(fn):
+    """local names bound exactly once in fn by a plain assignment (no loop / augmented / tuple
+    target, not a parameter): they stand for their value wherever they are used"""
+    params = {a.arg for a in fn.args.args + fn.args.kwonlyargs}
+    stores = {}
+    for n in ast.walk(fn):
+        if isinstance(n, ast.Name) and isinstance(n.ctx, (ast.Store, ast.Del)):
+            stores[n.id] = stores.get(n.id, 0) + 1
+    env = {}
+    for n in ast.walk(fn):
+        if isinstance(n, ast.Assign) and len(n.targets) == 1 and isinstance(n.targets[0], ast.Name):
+            name = n.targets[0].id
+            if stores.get(name) == 1 and name not in params:
+                env[name] = n.value
+    return env
+
+
+def _resolved(fn, e):
+    """e with the single-assignment locals of fn substituted (data flow instead of names)"""
+    from . import canon_c11 as C
+    env = _single_assignments(fn)
+    for _ in range(6):
+        new = C.subst(e, env)
+        if _u(new) == _u(e):
+            break
+        e = new
     return e
 
 
-def _is_abs_index(fn, e, suffix=""):
-    e = _resolve_local(fn, e)
-    return any(_u(e) == "%s.to_absolute(self.cutoff)%s" % (h, suffix) for h in HORIZONS)
+def _is_abs_index(fn, e, to_pandas=False):
+    """<horizon>.to_absolute(self.cutoff) (cutoff positional or by keyword, possibly through locals)"""
+    from .naive_c11 import bound_args
+    e = _resolved(fn, e)
+    if to_pandas:
+        if not (isinstance(e, ast.Call) and isinstance(e.func, ast.Attribute) and e.func.attr == "to_pandas"
+                and not e.args and not e.keywords):
+            return False
+        e = e.func.value
+    def is_horizon(h):
+        """the forecasting horizon in use, or its in-sample / out-of-sample part"""
+        if _u(h) in HORIZONS:
+            return True
+        if (isinstance(h, ast.Call) and isinstance(h.func, ast.Attribute)
+                and h.func.attr in ("to_out_of_sample", "to_in_sample") and is_horizon(h.func.value)):
+            try:
+                (c0,) = bound_args(h, ["cutoff"])
+            except Unsupported:
+                return False
+            return _u(c0) == "self.cutoff"
+        return False
+    if not (isinstance(e, ast.Call) and isinstance(e.func, ast.Attribute) and e.func.attr == "to_absolute"
+            and is_horizon(e.func.value)):
+        return False
+    try:
+        (c,) = bound_args(e, ["cutoff"])
+    except Unsupported:
+        return False
+    return _u(c) == "self.cutoff"
 
 
 def _index_sites(repo, out):
@@ -93,7 +136,7 @@ def _index_sites(repo, out):
                 elif (rel.endswith("_statsmodels.py") and qn.endswith("._predict") and isinstance(n, ast.Return)):
                     v = n.value
                     _need(isinstance(v, ast.Subscript) and _u(v.value) == "y_pred.loc"
-                          and _is_abs_index(fn, v.slice, ".to_pandas()"),
+                          and _is_abs_index(fn, v.slice, to_pandas=True),
                           "%s: %s must select y_pred.loc[fh.to_absolute(self.cutoff).to_pandas()]" % (rel, qn), n)
                     site = True
                 if site:
@@ -113,9 +156,16 @@ def _index_sites(repo, out):
     # the adapter asks the wrapped model for zero-based positions start..end from the same horizon
     with open(os.path.join(repo, "sktime/forecasting/base/adapters/_statsmodels.py")) as f:
         fn = find(ast.parse(f.read()), "_StatsModelsAdapter._predict")
+    from .naive_c11 import bound_args
     se = [n for n in ast.walk(fn) if isinstance(n, ast.Assign) and _u(n.targets[0]) == "(start, end)"]
-    _need(len(se) == 1 and _u(se[0].value) == "fh.to_absolute_int(self._y.index[0], self.cutoff)[[0, -1]]",
-          "adapter: start, end = fh.to_absolute_int(self._y.index[0], self.cutoff)[[0, -1]]")
+    _need(len(se) == 1, "adapter: start, end = ...")
+    v = _resolved(fn, se[0].value)
+    _need(isinstance(v, ast.Subscript) and _u(v.slice) == "[0, -1]" and isinstance(v.value, ast.Call)
+          and _u(v.value.func) == "fh.to_absolute_int",
+          "adapter: start, end = fh.to_absolute_int(self._y.index[0], self.cutoff)[[0, -1]]", v)
+    a_start, a_cut = bound_args(v.value, ["start", "cutoff"])
+    _need(_u(a_start) == "self._y.index[0]" and _u(a_cut) == "self.cutoff",
+          "adapter: zero-based positions from self._y.index[0] and self.cutoff", v)
     out.append("Definition gen_adapter_position (start cutoff r : Z) : Z := gen_fh_abs_int start (gen_fh_abs cutoff r).\n")
 
 
